@@ -93,7 +93,7 @@ def run_c11(chk, binp):
     core.log("[C11] generated %d cases (law checked) in %.1fs" % (n, g.wall))
     obs = chk.path("obs_enum.ndjson")
     core.run_bin(binp, ["obs-build", cases, obs])
-    nr = 1000 if quick else 30000
+    nr = 700 if quick else 30000
     robs = chk.path("obs_rand.ndjson")
     core.run_bin(binp, ["rand-build", nr, chk.seed, robs])
     allobs = chk.path("obs_all.ndjson")
@@ -263,7 +263,7 @@ def run_c13(chk, binp):
     g, n = core.tlc_generate("gen/Gen_MsgCompat.tla", "gen/Gen_MsgCompat_%s.cfg" % ("quick" if quick else "thorough"), cases, timeout=3000)
     chk.add_tlc(g)
     obs = chk.path("obs.ndjson")
-    core.run_bin(binp, ["obs-compat", cases, obs, 1 if quick else 3], timeout=3000)
+    core.run_bin(binp, ["obs-compat", cases, obs, 4], timeout=3000)
     objs = [json.loads(x) for x in open(obs)]
     for o in objs:
         for cn in o["conns"]:
